@@ -55,6 +55,18 @@ Section Loads.
     | _ => false
     end.
 
+  (* makeReader, link by link: measure the link if its size is not declared; the first child the offset falls strictly
+     inside is opened at once (Seek on its reader loads it) - before the links after it are measured *)
+  Definition mtrace (md : option udata) (off : Z) :=
+    fix go (i : nat) (ls : list plink) (sizes : list Z) (at_ : Z) : list blk :=
+      match ls, sizes with
+      | PLink _ _ t :: r, sz :: sr =>
+        (if measured md i t then t :: (if has_filesize t then [] else utrace t) else [])
+          ++ (if negb (at_ + sz <=? off) && (at_ <? off) && negb (measured md i t) then [t] else [])
+          ++ go (S i) r sr (at_ + sz)
+      | _, _ => []
+      end.
+
   Fixpoint ustreamL (b : blk) (off : Z) : strm :=
     match b with
     | Raw c => SBytes (skipz off c) SNil
@@ -67,24 +79,27 @@ Section Loads.
               | Panic => SErr EOther
               end
       | _ =>
-        sload_list (utrace b)
-          match ulink_sizes fault (usize fault) (node_meta d) 0 ls with
-          | Err e => SErr e
-          | Panic => SErr EOther
-          | Ok sizes =>
-            (fix go (i : nat) (ls : list plink) (sizes : list Z) (at_ : Z) : strm :=
-               match ls, sizes with
-               | PLink _ _ t :: r, sz :: sr =>
-                 if at_ + sz <=? off then go (S i) r sr (at_ + sz)
-                 else if measured (node_meta d) i t
-                      then sapp (ustreamL t (Z.max 0 (off - at_))) (go (S i) r sr (at_ + sz))   (* opened already *)
-                      else match fault t with
-                           | Some e => SFail t e
-                           | None => SLoad t (sapp (ustreamL t (Z.max 0 (off - at_))) (go (S i) r sr (at_ + sz)))
-                           end
-               | _, _ => SNil
-               end) 0%nat ls sizes 0
-          end
+        match ulink_sizes fault (usize fault) (node_meta d) 0 ls with
+        | Err e => sload_list (utrace b) (SErr e)
+        | Panic => SErr EOther
+        | Ok sizes =>
+          sload_list (mtrace (node_meta d) off 0%nat ls sizes 0)
+            ((fix go (i : nat) (ls : list plink) (sizes : list Z) (at_ : Z) : strm :=
+                match ls, sizes with
+                | PLink _ _ t :: r, sz :: sr =>
+                  if at_ + sz <=? off then go (S i) r sr (at_ + sz)
+                  else if measured (node_meta d) i t
+                       then sapp (ustreamL t (Z.max 0 (off - at_))) (go (S i) r sr (at_ + sz))   (* opened already *)
+                       else match fault t with
+                            | Some e => SFail t e
+                            | None =>
+                              if at_ <? off
+                              then sapp (ustreamL t (Z.max 0 (off - at_))) (go (S i) r sr (at_ + sz)) (* opened by Seek *)
+                              else SLoad t (sapp (ustreamL t (Z.max 0 (off - at_))) (go (S i) r sr (at_ + sz)))
+                            end
+                | _, _ => SNil
+                end) 0%nat ls sizes 0)
+        end
       end
     end.
 End Loads.
@@ -130,19 +145,22 @@ Definition go_linksL (fault : blk -> option err) (md : option udata) (rec : blk 
            then sapp (rec t (Z.max 0 (off - at_))) (go (S i) r sr (at_ + sz))
            else match fault t with
                 | Some e => SFail t e
-                | None => SLoad t (sapp (rec t (Z.max 0 (off - at_))) (go (S i) r sr (at_ + sz)))
+                | None =>
+                  if at_ <? off
+                  then sapp (rec t (Z.max 0 (off - at_))) (go (S i) r sr (at_ + sz))
+                  else SLoad t (sapp (rec t (Z.max 0 (off - at_))) (go (S i) r sr (at_ + sz)))
                 end
     | _, _ => SNil
     end.
 
 Lemma ustreamL_pb fault d l ls off :
   ustreamL fault (Pb d (l :: ls)) off =
-  sload_list (utrace fault (Pb d (l :: ls)))
-    match ulink_sizes fault (usize fault) (node_meta d) 0 (l :: ls) with
-    | Err e => SErr e
-    | Panic => SErr EOther
-    | Ok sizes => go_linksL fault (node_meta d) (ustreamL fault) off 0 (l :: ls) sizes 0
-    end.
+  match ulink_sizes fault (usize fault) (node_meta d) 0 (l :: ls) with
+  | Err e => sload_list (utrace fault (Pb d (l :: ls))) (SErr e)
+  | Panic => SErr EOther
+  | Ok sizes => sload_list (mtrace fault (node_meta d) off 0%nat (l :: ls) sizes 0)
+                           (go_linksL fault (node_meta d) (ustreamL fault) off 0 (l :: ls) sizes 0)
+  end.
 Proof. reflexivity. Qed.
 
 (* a link that was measured successfully leads to an available block *)
@@ -176,17 +194,18 @@ Proof.
   destruct (measured md i t) eqn:Em.
   - rewrite (Hav 0%nat n ts t eq_refl) by (rewrite Nat.add_0_r; exact Em). cbn [sview].
     rewrite !sview_sapp, Ht, (IH (S i) sr (at_ + sz) Hr Hav'). reflexivity.
-  - destruct (fault t); [reflexivity|]. cbn [sview].
-    rewrite !sview_sapp, Ht, (IH (S i) sr (at_ + sz) Hr Hav'). reflexivity.
+  - destruct (fault t); [reflexivity|]. destruct (at_ <? off); cbn [sview];
+      rewrite !sview_sapp, Ht, (IH (S i) sr (at_ + sz) Hr Hav'); reflexivity.
 Qed.
 
 Theorem ustreamL_view fault b : forall off, sview (ustreamL fault b off) = sview (ustream fault b off).
 Proof.
   induction b as [c|i n|d ls IH] using blk_ind'; intros off; [reflexivity|reflexivity|].
   destruct ls as [|l ls]; [reflexivity|].
-  rewrite ustreamL_pb, ustream_pb, sview_sload_list.
-  destruct (ulink_sizes fault (usize fault) (node_meta d) 0 (l :: ls)) as [sizes|e|] eqn:Es; [|reflexivity|reflexivity].
-  apply go_linksL_view; [exact IH|].
+  rewrite ustreamL_pb, ustream_pb.
+  destruct (ulink_sizes fault (usize fault) (node_meta d) 0 (l :: ls)) as [sizes|e|] eqn:Es;
+    [|rewrite sview_sload_list; reflexivity|reflexivity].
+  rewrite sview_sload_list. apply go_linksL_view; [exact IH|].
   intros j n ts t Hn Hm. exact (ulink_sizes_measured_available fault (node_meta d) (l :: ls) 0%nat sizes Es j n ts t Hn Hm).
 Qed.
 
